@@ -26,7 +26,9 @@ def routing(ctx, sample, shape=0):
     # pending sessions wait in a session store between steps: native bytes, serde-bincode or serde-json
     STORE = ["native", "bincode", "json"][(shape // 4 + shape) % 3]
     # an explicit client identity is per user: the server looks it up by credential identifier, the client uses its own
-    idu_of = lambda user: (b"client-of-" + user.encode()) if EXPL else None
+    # (long, with a long common prefix and equal lengths: a transcript that depended on a prefix, a digest or only the
+    # length of an identity would merge different users)
+    idu_of = lambda user: (b"client-identity-with-a-long-common-prefix/" * 4 + b"of-" + user.encode()) if EXPL else None
     user_of_cred = {C1: "u1", C2: "u2", C3: "u3"}
     user_of_client = {"c1": "u1", "c2": "u2", "c3-wrong": "u1", "c4": "u3"}
     records = {}   # name -> (file, pw, cred)
